@@ -3,6 +3,7 @@ package main
 // report.go: obligations, rule registry, known findings, evidence output.
 
 import (
+	"time"
 	"encoding/json"
 	"fmt"
 	"go/ast"
@@ -129,7 +130,11 @@ func runProperty(w *World, p *Property, tier string) (*Ctx, []ruleSummary) {
 					c.add("undecided", "checker-panic", nil, fmt.Sprintf("checker panicked inside rule (shape not understood): %v", rec))
 				}
 			}()
+			t0 := time.Now()
 			r.Fn(c)
+			if os.Getenv("RULE_TIMING") != "" {
+				fmt.Fprintf(os.Stderr, "RULE %s %v\n", r.Name, time.Since(t0))
+			}
 		}()
 		n := len(c.obls) - before
 		if n < r.Floor {
